@@ -116,9 +116,12 @@ def run(ctx: Ctx) -> None:
             ctx.extra['stopped_early_after'] = i
             break
         opts = {'chained_assign': i % 40 == 7, 'classmethod_not_first': i % 3 == 0}
-        src = nodegen.NG(rnd, opts).module(rnd.choice([1, 2, 2, 3]))
-        if i % 10 == 3:
-            src += EDGE
+        if i < len(NESTING):
+            opts, src = {'chained_assign': False, 'classmethod_not_first': False}, NESTING[i]      # every nesting of def / class up to four levels, on every run
+        else:
+            src = nodegen.NG(rnd, opts).module(rnd.choice([1, 2, 2, 3]))
+            if i % 10 == 3:
+                src += EDGE
         try:
             want = nodecanon.canon_python(src)
         except (SyntaxError, ValueError, RecursionError):
@@ -166,6 +169,37 @@ def run(ctx: Ctx) -> None:
     ctx.correspond('function_kind', IMPORTS + '\nFrom Tranp Require Import Base.Str.', 'fdef * str',
                    'fun c => match first_accepting function_def_order (fst c) with Some k => str_eqb k (snd c) | None => false end', kcases, kraw, shard=200)
 
+
+def nesting_sources():
+    """def / class nested in each other in every order, two to four levels; a def directly inside a class also as constructor and as
+    class method (the kind of a def is decided by the nearest enclosing scope, whatever lies further out)"""
+    import itertools
+    out = []
+    for n in (2, 3, 4):
+        for seq in itertools.product(['def', 'class'], repeat=n):
+            variants = ['plain']
+            if seq[-1] == 'def' and seq[-2] == 'class':
+                variants += ['init', 'classmethod']
+            for variant in variants:
+                lines = []
+                for d, k in enumerate(seq):
+                    ind = '\t' * d
+                    in_class = d > 0 and seq[d - 1] == 'class'
+                    last = d == n - 1
+                    if k == 'class':
+                        lines.append('%sclass K%d:' % (ind, d))
+                    elif last and variant == 'init':
+                        lines.append('%sdef __init__(self, a%d: int) -> None:' % (ind, d))
+                    elif last and variant == 'classmethod':
+                        lines += ['%s@classmethod' % ind, '%sdef f%d(cls, a%d: int) -> None:' % (ind, d, d)]
+                    else:
+                        lines.append('%sdef f%d(%sa%d: int) -> None:' % (ind, d, 'self, ' if in_class else '', d))
+                lines.append('\t' * n + 'pass')
+                out.append('\n'.join(lines) + '\n')
+    return out
+
+
+NESTING = nesting_sources()
 
 EDGE = '''
 class Edge(Base):
